@@ -47,10 +47,13 @@ var (
 	}
 	bufferPool   = sync.Pool{}
 	programCache = caching.CreateProgramCache()
+	// programs compiled with the pointer-value flag, see cacheFor
+	programCachePV = caching.CreateProgramCache()
 )
 
 func ResetProgramCache() {
 	programCache.Reset()
+	programCachePV.Reset()
 }
 
 func NewBytes() *[]byte {
